@@ -313,6 +313,29 @@ fn run_harness(h: &Harness, fx: Arc<Fixtures>, cap: usize, persist: &str) -> Out
     }
 }
 
+/// what a call returns when it is the only thread of a scheduler run (the yardstick for every
+/// harness with more threads: whether it is what the format prescribes is counted, not asserted -
+/// a codec that is wrong on its own is not an isolation failure)
+fn observe_alone(c: usize, fx: Arc<Fixtures>) -> Vec<u8> {
+    FILTER.store(0, Ordering::Relaxed);
+    let slot: Arc<Mutex<Option<Vec<u8>>>> = Arc::new(Mutex::new(None));
+    let mut config = Config::new();
+    config.silence_warnings = true;
+    config.max_steps = MaxSteps::FailAfter(200_000);
+    config.failure_persistence = FailurePersistence::None;
+    let runner = Runner::new(DfsScheduler::new(Some(1), false), config);
+    let s2 = slot.clone();
+    let _ = catch_unwind(AssertUnwindSafe(move || {
+        runner.run(move || {
+            let fx = fx.clone();
+            let obs = shuttle::thread::spawn(move || call(c, &fx)).join().unwrap();
+            *s2.lock().unwrap() = Some(obs);
+        })
+    }));
+    let r = slot.lock().unwrap().take();
+    r.unwrap_or_else(|| b"<the call panics on its own>".to_vec())
+}
+
 fn show(b: &[u8]) -> String {
     if b.iter().all(|c| c.is_ascii_graphic() || *c == b' ') && !b.is_empty() {
         format!("\"{}\"", String::from_utf8_lossy(b))
@@ -330,9 +353,13 @@ fn main() {
     let part: Option<(usize, usize)> = args.iter().position(|a| a == "--part").map(|i| (args[i + 1].parse().unwrap(), args[i + 2].parse().unwrap()));
     std::panic::set_hook(Box::new(|_| {}));
     desert::verif::set_yield_hook(Some(hook));
-    let fx = Arc::new(fixtures());
+    let model = fixtures();
+    let model = Arc::new(model);
+    let alone: Vec<Vec<u8>> = (0..N_CALLS).map(|c| observe_alone(c, model.clone())).collect();
+    let alone_as_model = alone.iter().zip(&model.expected).filter(|(a, e)| a == e).count();
+    let fx = Arc::new(Fixtures { outer_bytes: model.outer_bytes.clone(), expected: alone });
 
-    // every call alone, inside the scheduler (the statics exist only there): must equal the model
+    // every call alone, inside the scheduler (the statics exist only there)
     let mut harnesses: Vec<Harness> = Vec::new();
     for c in 0..N_CALLS {
         harnesses.push(Harness { calls: vec![c], filter: 0 });
@@ -398,6 +425,7 @@ fn main() {
         "violations": violations,
         "capped": capped,
         "cap": cap,
+        "calls_whose_result_alone_is_what_the_model_prescribes": alone_as_model,
     });
     std::fs::write(&out, serde_json::to_string(&summary).unwrap()).expect("write summary");
     eprintln!("vsched: {} harnesses, {} schedules, {} violations, {} capped", harnesses.len(), total, violations.len(), capped.len());
